@@ -101,6 +101,7 @@ class Runtime:
         self.same_exc = {}
         self.keep = []
         self.ser_calls = 0
+        self.ser_failed = 0  # serializer calls that raised
         self.ext_calls = 0
         self.ser_fail = {k: e for k, e in env["serFail"]}
         self.dest_fail = {(d, k): e for d, k, e in env["destFail"]}
@@ -218,6 +219,7 @@ class Runtime:
             k = self.ser_calls
             self.ser_calls += 1
             if k in self.ser_fail:
+                self.ser_failed += 1
                 raise self.make_exc(self.ser_fail[k])
             return SerOut(sid, k, v)
 
